@@ -479,9 +479,11 @@ META = {
               "block in file order, hostname defaults to the looked-up name, identityfile is the duplicate-free "
               "accumulation over all applying blocks — both _lookup passes included (lookup_first_obtained, "
               "lookupLines_first_obtained, lookupPass_static, blockApplies_static, identityFiles_nodup, "
-              "mem_identityFiles, parse_nodup). Token expansion (_expand_variables/_tokenize, HostName first, generated "
-              "token table) is modelled executably and tied by correspondence and by the reference oracle; no Lean theorem "
-              "about it yet. Match host / user / final (option- and pass-dependent) are modelled and tied by "
+              "mem_identityFiles, parse_nodup, block_list_values); token expansion for every option dict, whatever its order: "
+              "hostname is expanded against the looked-up name (only %h), every other option by _tokenize over the "
+              "GENERATED token table against the options with the expanded HostName, None stays None, keys without "
+              "documented tokens are untouched (expandVariables_get, tokenize_hostname, "
+              "percent_h_is_expanded_hostname). Match host / user / final (option- and pass-dependent) are modelled and tied by "
               "correspondence only; Match exec and hostname canonicalisation are not modelled."),
     "note": ("Trusted: Lean kernel + 3 standard axioms; re/shlex/str methods of CPython (the model starts from logical "
              "lines; rendering to text with random formatting exercises the real regex/shlex glue); fnmatch is modelled for "
